@@ -390,6 +390,7 @@ func init() {
 			sys.dns.mu.Lock()
 			sys.dns.script = script
 			sys.dns.mu.Unlock()
+			qStart := time.Now()
 			out := sys.query("dns53", proto, payload)
 			var ss []string
 			for _, d := range script {
@@ -402,10 +403,9 @@ func init() {
 			}
 			c.Emit("upf dns53 "+proto+" "+hx(payload)+" "+strings.Join(ss, ","), out)
 			// let late datagrams of this script drain before the next query
-			for _, d := range script {
-				if d.delay > 100 {
-					time.Sleep(time.Duration(d.delay-100) * time.Millisecond)
-					break
+			if len(script) > 0 {
+				if last := script[len(script)-1].delay; last > 300 {
+					time.Sleep(time.Until(qStart.Add(time.Duration(last+50) * time.Millisecond)))
 				}
 			}
 		}
@@ -495,6 +495,16 @@ func init() {
 					case 2:
 						script = append(script, dgram{delay: r.Intn(30), kind: "wrongid", n: 2, salt: 0})
 					}
+				}
+				if r.Chance(5) {
+					// a drip of stale answers (wrong IDs) spaced closer than the timeout, well past it:
+					// the deadline is absolute, the query must still fail at the timeout
+					script = nil
+					for d := 100; d <= 1500; d += 140 {
+						script = append(script, dgram{delay: d, kind: []string{"wrongid", "wronghi", "short"}[r.Intn(3)], n: 30, salt: r.Intn(256)})
+					}
+					runDNS(proto, payload, script)
+					continue
 				}
 				switch r.Intn(6) {
 				case 0: // nothing valid ever arrives
